@@ -55,7 +55,9 @@ def _wrap(t, L):
 class Guards:
     def __init__(self, cx, crate):
         self.cx, self.crate = cx, crate
-        self.S = sem.Sem(cx, crate, inline=lambda p: False, max_leaves=4000)
+        # predicates of the crate (fn .. -> bool) are looked into: a guard extracted into a helper stays a guard
+        self.S = sem.Sem(cx, crate, inline=lambda p: p in crate.fns and "mir" in crate.fns[p] and crate.fns[p].get("output") == "bool"
+                         and "{closure" not in p, max_leaves=4000)
         self._memo = {}
 
     def verdicts(self, path):
@@ -95,6 +97,10 @@ class Guards:
                     pre = [(_wrap(canon_len(a), L), v) for a, v in l.assume[:ev[1]]]
                     rel = [(a, v) for a, v in pre if any(x == L for x in walk(a))]
                     verdict = "proved"
+                    # an uninterpreted call that is handed the collection and whose outcome the path depends on may be the guard
+                    coll = L[1]
+                    opaque_guard = any(any(x[0] in ("call", "icall") and last(x[1] if x[0] == "call" else "") not in ("len", "is_empty")
+                                           and any(_strip(y) == coll for y in (x[2] if x[0] == "call" else x[2])) for x in walk(a)) for a, v in pre)
                     for n in range(0, 6):
                         env = {L: n}
                         ok = True
@@ -114,7 +120,7 @@ class Guards:
                             verdict = "unevaluable"
                             break
                         if c != want:
-                            verdict = "open(L=%d)" % n
+                            verdict = "unevaluable" if opaque_guard else "open(L=%d)" % n
                             break
                     res.setdefault(ev[2][1], set()).add(verdict)
             for bb, vs in res.items():
